@@ -472,6 +472,17 @@ def layouts_part(run, bulk, np):
                 f = io.StringIO()
                 bulk.wttabdmp1(f, 9, fr, gd)
                 judge("wttabdmp1", "tabdmp1", f.getvalue(), [tv[x] for x in lay["tabdmp1"]], case)
+            # RBE3: two groups (n grids with weight 1.5 and DOF 123, two grids with weight 2.5 and DOF 12), with / without UM and ALPHA
+            gi = [int(x) for x in rng.choice(np.arange(1, 9999), n + 6, replace=False)]
+            rv = {"eid": 77, "": "", "refg": gi[0], "refc": 123456, "wt1": 1.5, "c1": 123, "wt2": 2.5, "c2": 12, "h1": gi[1], "h2": gi[2],
+                  "UM": "UM", "m1": gi[3], "mc1": 12, "m2": gi[4], "mc2": 13, "m3": gi[5], "mc3": 1, "ALPHA": "ALPHA", "alpha": 6.5e-6}
+            rv.update({"g%d" % (i + 1): gi[6 + i] for i in range(n)})
+            ind = [[123, 1.5], gi[6:6 + n], [12, 2.5], [gi[1], gi[2]]]
+            um_l = [gi[3], 12, gi[4], 13, gi[5], 1]
+            for key, um_, al_ in (("rbe3", None, None), ("rbe3um", um_l, None), ("rbe3umalpha", um_l, 6.5e-6), ("rbe3alpha", None, 6.5e-6)):
+                f = io.StringIO()
+                bulk.wtrbe3(f, 77, gi[0], 123456, ind, um_, alpha=al_)
+                judge("wtrbe3 (%s)" % key, "rbe3", f.getvalue(), [rv[x] for x in lay[key]], case)
             if n <= 3:
                 off = [None, [4.0, 5.0, 6.0], [0.5, -1.5, 2.5]][n - 1]
                 offd = [None, [0.125, 0.25, 0.5], None][n - 1]
